@@ -498,9 +498,10 @@ def run_check(pid, tier, seed, workers=None):
             v["shard"] = r["idx"]
             viol.append(v)
         caps += r["caps"]
-        if len(samples) < 4:
-            samples += r["samples"][:1]
+        samples += r["samples"][:1]
 
+    if len(samples) > 6:  # a few cases spread over the whole exploration (first, last, evenly in between)
+        samples = [samples[round(i * (len(samples) - 1) / 5)] for i in range(6)]
     tot["states"] += len(state_union) + hist_states  # E-HIST: distinct fingerprints
     # canonical order: simplest case first, independent of the worker count
     viol.sort(key=lambda v: (v.get("ord") is None, v.get("ord") or [], v["shard"]))
